@@ -217,14 +217,8 @@ func (c14) Run(ctx *RunCtx) {
 			case 13:
 				method, params = "textDocument/semanticTokens/range", J{"textDocument": docID(doc.URI), "range": rng(0, 0, 1+c.Choose("range-lines", len(doc.Lines)), 0)}
 			case 14:
-				// ghost text on the stamp header line
-				hl := 0
-				for i, gl := range doc.Lines {
-					if strings.Contains(gl.Text, "stamp d") {
-						hl = i
-					}
-				}
-				method, params = "textDocument/inlineCompletion", J{"textDocument": docID(doc.URI), "position": pos(hl, len(doc.Lines[hl].Text))}
+				// ghost text on the empty line after the header being typed
+				method, params = "textDocument/inlineCompletion", J{"textDocument": docID(doc.URI), "position": pos(doc.GhostLine(), 0)}
 			}
 			pendingBefore := d.LiveBg()
 			if d.Sess.InboundPending() || len(d.S.RunnableTasks()) > 0 {
